@@ -166,6 +166,84 @@ def _observe(sid, ver, etm):
     return out
 
 
+def select(job):
+    sid, ver = job
+    try:
+        return _select(sid, ver)
+    except BaseException:
+        import traceback
+        return {"crash": traceback.format_exc(), "sid": sid, "ver": list(ver)}
+
+
+def _select(sid, ver):
+    """a server answers with a ServerHello of version `ver` that selects suite `sid`; only that one record is
+    delivered to a client that offers every version and (among others) this suite"""
+    from .. import suites
+    from ..endpoints import Pair, Task, run_tasks, cred, settings, shared_srp_db
+    from tlslite.constants import CipherSuite, HandshakeType, ContentType
+    from tlslite.messages import ClientHello
+    from tlslite.utils.codec import Parser
+    name = CipherSuite.ietfNames[sid]
+    own = [v for v in VERS if suites.negotiable(sid)] and None
+    p = Pair("c20sel-%d-%d" % (sid, ver[1]))
+    # client: everything the library has, every version
+    from tlslite.handshakesettings import CIPHER_NAMES, MAC_NAMES, KEY_EXCHANGE_NAMES, ALL_CIPHER_NAMES, ALL_MAC_NAMES
+    cs = settings(minVersion=(3, 0), maxVersion=(3, 4), cipherNames=list(ALL_CIPHER_NAMES), macNames=list(ALL_MAC_NAMES),
+                  keyExchangeNames=list(KEY_EXCHANGE_NAMES))
+    ch, key = cred("rsa")
+    ss = settings(minVersion=ver, maxVersion=ver)
+    kind = "cert"
+    ckw = dict(settings=cs)
+    if "SRP" in name:
+        kind = "srp"
+        ckw.update(username=bytearray(b"alice"), password=bytearray(b"password"))
+    elif "anon" in name:
+        kind = "anon"
+    # server-side rewrite of the selected suite
+    state = {"sh": 0}
+    for attr in ("_sendMsg", "_queue_message"):
+        orig = getattr(p.s, attr)
+
+        def wrap(msg, *a, _orig=orig, **kw):
+            if msg.contentType == ContentType.handshake and getattr(msg, "handshakeType", None) == HandshakeType.server_hello:
+                msg.cipher_suite = sid
+                state["sh"] += 1
+            return _orig(msg, *a, **kw)
+        setattr(p.s, attr, wrap)
+    if kind == "cert":
+        cgen = p.c.handshakeClientCert(async_=True, **ckw)
+    elif kind == "srp":
+        cgen = p.c.handshakeClientSRP(async_=True, **ckw)
+    else:
+        cgen = p.c.handshakeClientAnonymous(async_=True, **ckw)
+    sgen = p.s.handshakeServerAsync(certChain=ch, privateKey=key, settings=ss)
+    tc, ts = Task("c", cgen, p.csock), Task("s", sgen, p.ssock)
+    run_tasks([tc], p.pipes, max_steps=20000)
+    chraw = bytes(p.c2s.sent_log)
+    offered = False
+    try:
+        hello = ClientHello().parse(Parser(bytearray(chraw[6:])))
+        offered = sid in hello.cipher_suites
+    except Exception:
+        pass
+    run_tasks([ts], p.pipes, max_steps=20000)
+    for q in p.pipes:
+        q.transfer()
+    buf = p.s2c.buf
+    if len(buf) >= 5 and state["sh"]:
+        ln = (buf[3] << 8) | buf[4]
+        del buf[5 + ln:]
+    else:
+        return {"skip": "server sent no ServerHello (%s)" % ts.out.describe(), "sid": sid, "ver": list(ver)}
+    del p.s2c.inbox[:]
+    sent0 = len(p.c2s.sent_log)
+    run_tasks([tc], p.pipes, max_steps=20000)
+    accepted = not (tc.out.done and tc.out.exc is not None)
+    return {"sid": sid, "ver": list(ver), "name": name, "tokens": name.split("_"),
+            "sel": {"ev": "SEL", "ver": ver[1], "accepted": bool(accepted), "offered": bool(offered),
+                    "client": tc.out.describe() if tc.out.done else "waiting-for-more"}}
+
+
 def run(tier):
     from .. import suites
     rep = evidence.Report("C20", tier)
@@ -188,12 +266,35 @@ def run(tier):
             continue
         traces.append([{"ev": "CFG", "tokens": o["tokens"], "name": o["name"]}, o["obs"]])
         metas.append(o)
+    # ---- suites selected by the peer outside their versions
+    sjobs = [(sid, ver) for sid in suites.all_ids() for ver in VERS]
+    with Pool(16) as pool:
+        souts = pool.map(select, sjobs, chunksize=8)
+    nsel = 0
+    for o in souts:
+        if "crash" in o:
+            rep.machinery_errors.append("selection case crashed %s: %s" % (o.get("sid"), o["crash"][-500:]))
+            continue
+        if "skip" in o:
+            continue
+        nsel += 1
+        traces.append([{"ev": "CFG", "tokens": o["tokens"], "name": o["name"]}, o["sel"]])
+        metas.append(o)
+    rep.notes["peer_selected_cases"] = nsel
     r, rejected = tlc.validate_traces("trace/SuitesTrace.tla", "cfg/Suites_trace.cfg", traces, rep.outdir,
                                       batch_name="suites", timeout=900)
     rep.add_tlc(r, "SuitesTrace (%d observations)" % len(traces))
     rep.traces = len(traces)
     neg = 0
     for i, (t, o) in enumerate(zip(traces, metas)):
+        if "sel" in o:
+            se = o["sel"]
+            rep.case(("sel", o["sid"], tuple(o["ver"])), se["offered"])
+            if i in rejected:
+                rep.violation({"suite": o["name"], "ver": "%d.%d" % tuple(o["ver"]),
+                               "why": "client went on after a ServerHello that selects the suite in a version that does not define it",
+                               "observed": se["client"]}, {"sel": se, "tokens": o["tokens"]})
+            continue
         ob = o["obs"]
         rep.case((o["sid"], tuple(o["ver"]), ob.get("etm")), ob["negotiated"])
         neg += 1 if ob["negotiated"] else 0
@@ -217,7 +318,7 @@ def run(tier):
     rep.notes["suite_ids"] = len(suites.all_ids())
     rep.notes["negotiated_cases"] = neg
     rep.notes["not_negotiated"] = sorted(set("%s@%d.%d: %s" % (o["name"], o["ver"][0], o["ver"][1], o["obs"].get("why", ""))
-                                              for o in metas if not o["obs"]["negotiated"]
+                                              for o in metas if "obs" in o and not o["obs"]["negotiated"]
                                               and "handshake_failure" not in o["obs"].get("why", "") and "not configurable" not in o["obs"].get("why", "")))[:40]
     rep.exhaustive = True
     rep.notes["exhaustive_space"] = "every id in CipherSuite.ietfNames (< 0x10000, non-SCSV) x SSLv3..TLS1.3 x EtM on/off for CBC suites"
